@@ -1,19 +1,118 @@
 (* C05 - Client hands every reply to exactly the call that issued the request;
    tags awaiting a reply are pairwise distinct and never NOTAG, also after the
-   16-bit tag space wraps.  Only statements, each closed by [exact lemma]. *)
-From Coq Require Import List NArith Bool.
+   16-bit tag space wraps.
+
+   Only statements, each closed by [exact lemma], plus non-vacuity Examples.
+   The model (Model/Tags.v) is tied to transport.go / csession.go by the
+   correspondence run of bin/check; the facts it takes from the source
+   (Gen/GenReplyTypes.v, Gen/GenConsts.v) are regenerated on every run.
+
+   Quantification: every theorem about the owner loop is over ALL event lists
+   [evs] - any number of calls, any interleaving of requests, replies (any tag,
+   any type), failed writes, cancellations, shutdown - hence over histories of
+   any length, i.e. any number of wrap-arounds of the tag counter.
+
+   Partial clause (not expressible in an executable model): "concurrent use is
+   free of data races".  The model has ONE owner of the tag map by
+   construction; the harness runs the concurrent schedules under the race
+   detector in the thorough tier. *)
 From stdpp Require Import nmap fin_maps.
-From P9 Require Import Gen.GenReplyTypes Model.Tags Proofs.TagsProofsAlloc.
+From Coq Require Import List NArith Bool.
+From P9 Require Import Gen.GenReplyTypes Model.Tags
+  Proofs.TagsProofsAlloc Proofs.TagsProofs Proofs.TagsProofsDeliver.
 Import ListNotations.
 Open Scope N_scope.
 
-(* allocateTag: a tag it returns is not in the pool and is not the reserved tag *)
+(* 1. allocateTag: a tag it returns is not in the pool and is not the reserved tag ... *)
 Theorem C05_alloc_sound : forall (m : tagmap) h t,
   allocate m h = inl t -> m !! t = None /\ t <> NOTAG /\ t < 65535.
 Proof. exact allocate_sound. Qed.
 
 (* ... and it finds one whenever fewer than 65535 tags are taken, whatever the hint
-   (pigeonhole over the candidate sequence (hint+1+i) mod 65535) *)
+   (pigeonhole over the candidate sequence (hint+1+i) mod 65535; also when NOTAG
+   itself was put into the map, against the function's precondition) *)
 Theorem C05_alloc_complete : forall (m : tagmap) h,
   (size m < N.to_nat 65535)%nat -> exists t, allocate m h = inl t.
 Proof. exact allocate_complete. Qed.
+
+(* ... namely the first free tag after the hint, cyclically through 0..65534 *)
+Theorem C05_alloc_first : forall (m : tagmap) h t,
+  alloc_loop pool_fuel m h = Some t ->
+  exists i, (i < N.to_nat 65535)%nat /\ t = (next_tag h + N.of_nat i) mod 65535 /\
+            forall j, (j < i)%nat -> is_Some (m !! ((next_tag h + N.of_nat j) mod 65535)).
+Proof. exact (alloc_loop_first pool_fuel). Qed.
+
+Example C05_alloc_wraps_past_NOTAG :
+  allocate (<[65534 := 7]> (<[0 := 8]> ∅)) 65533 = inl 1 /\ allocate ∅ 65534 = inl 0 /\
+  allocate ∅ 65535 = inl 0.
+Proof. vm_compute. auto. Qed.
+
+(* 2. the tags of requests still awaiting a reply - computed from the wire
+   history alone: frames written minus tags answered, so abandoned calls stay
+   in - are pairwise distinct and never NOTAG, after ANY event list *)
+Theorem C05_distinct : forall evs,
+  List.NoDup (awaiting (wire_of evs)) /\ ~ In NOTAG (awaiting (wire_of evs)).
+Proof. exact awaiting_distinct. Qed.
+
+Example C05_distinct_nonvacuous :
+  awaiting (wire_of [EReq 1 120 true; EReq 2 116 true; ECancel 1; EReq 3 110 false;
+                     EReq 4 124 true; EResp 2 {| r_type := 117; r_id := 9 |}]) = [4; 1].
+Proof. vm_compute. reflexivity. Qed.
+
+(* 3. a reply handed to call c is the payload of a reply frame whose tag is
+   the tag of c's own request frame, sent after that frame and before any
+   other reply with that tag was taken *)
+Theorem C05_own_reply : forall evs c r,
+  In (ODeliver c r) (trace evs) ->
+  exists evs1 evs2 evs3 t mt,
+    evs = evs1 ++ EReq c mt true :: evs2 ++ EResp t r :: evs3 /\
+    snd (hstep (fst (run evs1)) (EReq c mt true)) = [OFrame t c mt] /\
+    no_resp t evs2.
+Proof. exact own_reply. Qed.
+
+(* ... and while the loop runs a reply whose tag is outstanding is handed over at once *)
+Theorem C05_reply_delivered : forall st t r c,
+  h_running st = true -> h_out st !! t = Some c ->
+  snd (hstep st (EResp t r)) = [ODeliver c r] /\ h_out (fst (hstep st (EResp t r))) !! t = None.
+Proof. exact resp_delivered. Qed.
+
+(* each call (distinct sends are distinct fcallRequests) is handed at most one
+   item over its two channels together: it returns at most one reply / error *)
+Theorem C05_once : forall evs,
+  List.NoDup (req_calls evs) -> List.NoDup (dcalls (trace evs)).
+Proof. exact delivered_once. Qed.
+
+Example C05_own_reply_nonvacuous :
+  trace [EReq 1 120 true; EReq 2 116 true; EResp 2 {| r_type := 117; r_id := 9 |};
+         EResp 1 {| r_type := 107; r_id := 5 |}]
+  = [OFrame 1 1 120; OFrame 2 2 116; ODeliver 2 {| r_type := 117; r_id := 9 |};
+     ODeliver 1 {| r_type := 107; r_id := 5 |}].
+Proof. vm_compute. reflexivity. Qed.
+
+(* 4. an error reply becomes that call's error, whatever the method *)
+Theorem C05_rerror : forall mt r,
+  r_type r = send_error_type ->
+  send_wait false false None (Some r) = [SRerror r] /\ client_result mt (SRerror r) = CRerror r.
+Proof. exact rerror_is_the_calls_error. Qed.
+
+(* ... and a reply of the type the method expects is its result *)
+Theorem C05_right_type : forall mt rt r,
+  expected_reply mt = Some rt -> r_type r = rt -> client_result mt (conv_reply r) = COk r.
+Proof. exact right_type_is_ok. Qed.
+
+Example C05_right_type_nonvacuous : expected_reply 116 = Some 117 /\ send_error_type = 107.
+Proof. vm_compute. auto. Qed.
+
+Print Assumptions C05_alloc_sound.
+Print Assumptions C05_alloc_complete.
+Print Assumptions C05_alloc_first.
+Print Assumptions C05_alloc_wraps_past_NOTAG.
+Print Assumptions C05_distinct.
+Print Assumptions C05_distinct_nonvacuous.
+Print Assumptions C05_own_reply.
+Print Assumptions C05_reply_delivered.
+Print Assumptions C05_once.
+Print Assumptions C05_own_reply_nonvacuous.
+Print Assumptions C05_rerror.
+Print Assumptions C05_right_type.
+Print Assumptions C05_right_type_nonvacuous.
